@@ -427,6 +427,15 @@ def _stats_request (ctx, repo, sw, h, stats_handlers, weight, spec):
         why = "a path that returns None (no body) sent [%d,%d] errors: the request gets %s" % (iv[0], iv[1], "no answer" if iv[0] == 0 else "several answers")
       ctx.ob('R-EFFECT', f, "%s: `%s`" % (sname, norm(n.ast)[:50]), good,
              "reply count before this return is %s" % (iv,) if good else why, (f.module, n.ast), 'D2')
+      # body shape: only the list-bodied statistics (flow, table, port, queue) may answer with a list; aggregate and
+      # description replies carry exactly one fixed-size structure
+      if kind == 'value' and ('OFPST_' + sname if not sname.startswith('OFPST_') else sname) not in spec['stats_reply_is_list']:
+        v_ = n.ast.value
+        is_list = isinstance(v_, (ast.List, ast.ListComp, ast.Tuple))
+        ctx.ob('R-AGREE', f, "%s reply body is a single structure (`%s`)" % (sname, norm(n.ast)[:40]), not is_list,
+               "not a list" if not is_list else
+               "this path answers a %s request with the list `%s`: the reply body is then empty / a sequence, but the specification requires exactly one fixed-size reply structure - "
+               "the controller's decoder underruns on it" % (sname, norm(v_)), (f.module, n.ast), 'D3')
     # implicit None (fall off the end)
     iv = fg.interval(weight, avoid=set(ret_nodes))
     if iv is not None:
